@@ -20,8 +20,13 @@ RULE = (
     "its position (instruction table) for bare names: the two value sequences must be identical, and a bare name in a plain value "
     "position must denote a single number.  distinct_nontrivial = compilation pairs in which at least one token differed textually."
 )
+RULE += (
+    ' STRINGS also holds 15 names whose CRC-32 is 0x80000000, 0x7fffffff, 0xffffffff, 0 or 0x80000001 (sign-conversion boundaries).'
+)
 ASSUME = ["a bare name in a plain value position that names a LogicType member is read by the chip as that LogicType number (logic types are looked up first); bare names that are ambiguous among the other enums only are reported", "enum name -> number tables are the repository's own (C16 checks their internal consistency)", "position kinds come from the harness instruction table (vp/ic10.py ISA)"]
 
+CRC_BOUNDARY_NAMES = ['Tank a9Kf9n', 'Tank HmMlyF', 'sixdIG', 'Tank l1VejG', 'Tank vgLkOu', 'N3Na94', 'Tank zMEbtY', 'Tank 2xkcg7', 'kMAbB0', 'Tank hZ3bu0', 'Tank cQpbSD', 'yZ7bCY', 'Tank zq2byd', 'Tank i10bJs', 'GlAexW']
+assert sorted({__import__("zlib").crc32(n.encode()) for n in CRC_BOUNDARY_NAMES}) == [0x0, 0x7FFFFFFF, 0x80000000, 0x80000001, 0xFFFFFFFF]
 SIGMA = ["a", "Z", "0", " ", "_", ".", "-", "é", ")", "(", '"']
 
 
@@ -190,6 +195,9 @@ def build_cases(tier):
         strs += ["".join(t) for t in itertools.product(SIGMA, repeat=ln)]
     # longer names with leading / trailing / inner blanks (long enough for compact mode to print the number)
     strs += [" Bank", "Bank ", " Display Row ", "  two  ", "Row 1 ", " x", "x ", "\tTab", "Tab\t", "a  b  c", "     ", " (1) ", "Name With Blank ", " é "]
+    # names whose CRC-32 sits on a boundary of the signed / unsigned conversion: 0x80000000, 0x7fffffff, 0xffffffff, 0, 0x80000001
+    # (found once by a meet-in-the-middle search; checked here against zlib)
+    strs += CRC_BOUNDARY_NAMES
     strs = [s for s in strs if s != "" and '")' not in s]  # a name containing '")' cannot be written inside HASH("...") in IC10 itself
     for j in range(0, len(strs), 40):
         chunk = strs[j : j + 40]
